@@ -33,7 +33,18 @@ pub open spec fn spec_ordered<T: PartialOrd, A>(e: Edge<T, A>) -> Edge<T, A>
 pub open spec fn rows_extended(old_rows: Seq<Vec<AdjacentNode>>, new_rows: Seq<Vec<AdjacentNode>>) -> bool {
     &&& new_rows.len() == old_rows.len() + 1
     &&& forall|i: int| 0 <= i < old_rows.len() ==> new_rows[i] == old_rows[i]
-    &&& new_rows[old_rows.len() as int]@.len() == 0
+    &&& new_rows[old_rows.len() as int]@ == Seq::<AdjacentNode>::empty()
+}
+
+// row i of the traversal rows, padded with empty rows (created nodes start with an empty row)
+pub open spec fn pad_row(rows: Seq<Vec<AdjacentNode>>, i: int) -> Seq<AdjacentNode> {
+    if 0 <= i < rows.len() { rows[i]@ } else { Seq::<AdjacentNode>::empty() }
+}
+
+// expected row i after add_edge applied the update (u -> v) and, when `both`, also (v -> u)
+pub open spec fn expected_row(base: Seq<AdjacentNode>, i: int, u: usize, v: usize, w: f64, ex: bool, replace: bool, both: bool) -> Seq<AdjacentNode> {
+    let r1 = if i == u { row_apply(base, v, w, ex, replace) } else { base };
+    if both && i == v { row_apply(r1, u, w, ex, replace) } else { r1 }
 }
 
 impl<T: Eq + PartialOrd + Send + Sync, A: Clone> Graph<T, A> {
@@ -164,22 +175,24 @@ pub proof fn lemma_estore_frame<T: Eq + PartialOrd + Send + Sync, A: Clone>(g0: 
     }
 }
 
-// wf_estore after the store changed at one canonical key only
-pub proof fn lemma_estore_after_store<T: Eq + PartialOrd + Send + Sync, A: Clone>(g1: Graph<T, A>, g2: Graph<T, A>, c0: usize, c1: usize)
+// wf_estore after add_edge stored x at the canonical key (c0, c1): the list there is [x], or the old list with x appended
+pub proof fn lemma_estore_after_store<T: Eq + PartialOrd + Send + Sync, A: Clone>(g1: Graph<T, A>, g2: Graph<T, A>, c0: usize, c1: usize, x: Arc<Edge<T, A>>)
     requires
         g1.wf_estore(),
         g2.specs == g1.specs,
-        g2.n() == g1.n(),
-        forall|i: usize| i < g1.n() ==> #[trigger] g2.name_of(i) == g1.name_of(i),
+        g2.nodes_vec@ == g1.nodes_vec@,
         forall|a: usize, b: usize| (a != c0 || b != c1) ==> #[trigger] g2.has_pair(a, b) == g1.has_pair(a, b),
         forall|a: usize, b: usize| (a != c0 || b != c1) && g1.has_pair(a, b) ==> #[trigger] g2.pair_list(a, b) == g1.pair_list(a, b),
         c0 < g1.n() && c1 < g1.n(),
         !g1.specs.directed ==> c0 <= c1,
-        g2.has_pair(c0, c1) ==> ({
-            &&& g2.pair_list(c0, c1).len() > 0
-            &&& (!g2.specs.multi_edges ==> g2.pair_list(c0, c1).len() == 1)
-            &&& forall|k: int| 0 <= k < g2.pair_list(c0, c1).len() ==> g2.edge_fits(*#[trigger] g2.pair_list(c0, c1)[k], c0, c1)
+        g2.has_pair(c0, c1),
+        g2.edge_fits(*x, c0, c1),
+        g1.specs.multi_edges && g1.has_pair(c0, c1) ==> ({
+            &&& g2.pair_list(c0, c1).len() == g1.pair_list(c0, c1).len() + 1
+            &&& forall|k: int| 0 <= k < g1.pair_list(c0, c1).len() ==> #[trigger] g2.pair_list(c0, c1)[k] == g1.pair_list(c0, c1)[k]
+            &&& g2.pair_list(c0, c1)[g1.pair_list(c0, c1).len() as int] == x
         }),
+        !(g1.specs.multi_edges && g1.has_pair(c0, c1)) ==> g2.pair_list(c0, c1).len() == 1 && g2.pair_list(c0, c1)[0] == x,
     ensures
         g2.wf_estore(),
 {
@@ -193,10 +206,16 @@ pub proof fn lemma_estore_after_store<T: Eq + PartialOrd + Send + Sync, A: Clone
         if u != c0 || v != c1 {
             assert(g1.has_pair(u, v));
             assert(g2.pair_list(u, v) == g1.pair_list(u, v));
-            assert(g2.name_of(u) == g1.name_of(u));
-            assert(g2.name_of(v) == g1.name_of(v));
             assert forall|k: int| 0 <= k < g2.pair_list(u, v).len() implies g2.edge_fits(*#[trigger] g2.pair_list(u, v)[k], u, v) by {
                 assert(g1.edge_fits(*g1.pair_list(u, v)[k], u, v));
+            }
+        } else {
+            if g1.specs.multi_edges && g1.has_pair(c0, c1) {
+                assert forall|k: int| 0 <= k < g2.pair_list(u, v).len() implies g2.edge_fits(*#[trigger] g2.pair_list(u, v)[k], u, v) by {
+                    if k < g1.pair_list(c0, c1).len() {
+                        assert(g1.edge_fits(*g1.pair_list(c0, c1)[k], c0, c1));
+                    }
+                }
             }
         }
     }
